@@ -59,30 +59,43 @@ def Enables.forMode (e : Enables) : Nat → Bool
   | 2 => e.m2
   | _ => false
 
-/-! Events between two sample times `a < b` with no schedule boundary skipped in between
+/-! Events, first as predicates on two consecutive sampled positions `p` (before) and `q` (after),
+then between two sample times `a < b` with no schedule boundary skipped in between
 (the checks use `b = a + 4`; `Props/C14.lean` proves that every boundary of `sched` lies on a
 multiple of 4, so sampling every 4 clocks loses nothing). -/
 
-/-- LY becomes 144 between `a` and `b`: the VBlank interrupt must be requested -/
-def vblankEv (a b : Nat) : Bool :=
-  (sched a).line != 144 && (sched b).line == 144
+/-- LY becomes 144: the VBlank interrupt must be requested -/
+def vblankEvP (p q : Pos) : Bool := p.line != 144 && q.line == 144
 
-/-- a mode is entered between `a` and `b` -/
-def modeEntered (a b : Nat) : Bool := (sched a).mode != (sched b).mode
+/-- a mode is entered -/
+def modeEnteredP (p q : Pos) : Bool := p.mode != q.mode
 
-/-- LY changes between `a` and `b` -/
-def lyChanged (a b : Nat) : Bool := (sched a).line != (sched b).line
+/-- LY changes -/
+def lyChangedP (p q : Pos) : Bool := p.line != q.line
 
-/-- a STAT interrupt must be requested between `a` and `b`: entry to a mode whose enable bit is
-set, or LY becoming equal to LYC with the coincidence enable set -/
-def statEv (e : Enables) (lyc : Nat) (a b : Nat) : Bool :=
-  (modeEntered a b && e.forMode (sched b).mode) ||
-  (lyChanged a b && (sched b).line == lyc && e.lyc)
+/-- a STAT interrupt must be requested: entry to a mode whose enable bit is set, or LY becoming
+equal to LYC with the coincidence enable set -/
+def statEvP (e : Enables) (lyc : Nat) (p q : Pos) : Bool :=
+  (modeEnteredP p q && e.forMode q.mode) || (lyChangedP p q && q.line == lyc && e.lyc)
+
+def vblankEv (a b : Nat) : Bool := vblankEvP (sched a) (sched b)
+def modeEntered (a b : Nat) : Bool := modeEnteredP (sched a) (sched b)
+def lyChanged (a b : Nat) : Bool := lyChangedP (sched a) (sched b)
+def statEv (e : Enables) (lyc : Nat) (a b : Nat) : Bool := statEvP e lyc (sched a) (sched b)
 
 /-- some 4-clock step in `(4*k, 4*(k+n)]` carries the event -/
 def anyTick (ev : Nat → Nat → Bool) : (k n : Nat) → Bool
   | _, 0 => false
   | k, n+1 => ev (4 * k) (4 * k + 4) || anyTick ev (k + 1) n
+
+/-- both event kinds over the ticks `(4*k, 4*(k+n)]` in one pass, evaluating the schedule once per
+tick (`p` is the position at clock `4*k`); equal to `anyTick vblankEv`, `anyTick (statEv e lyc)`
+(`LcdProofs.evScan_eq`).  Returns the final position too. -/
+def evScan (e : Enables) (lyc : Nat) : (p : Pos) → (k n : Nat) → (vb st : Bool) → Pos × Bool × Bool
+  | p, _, 0, vb, st => (p, vb, st)
+  | p, k, n+1, vb, st =>
+    let q := sched (4 * k + 4)
+    evScan e lyc q (k + 1) n (vb || vblankEvP p q) (st || statEvP e lyc p q)
 
 /-- bits 0..2 of STAT at time `t` with the given LYC -/
 def statLow (lyc t : Nat) : Nat :=
